@@ -2,7 +2,8 @@
 (* V: outputs recorded from the real utilities on long random vectors, judged by the declarative
    P-layer only (the I-layer's stable-sort transcription is cubic in TLC and is bound to the code
    by the exhaustive small-scope replay instead):
-   {id, v, ids, groups, unique, req, inClusters, flat, lookup, indexOf, w, mean: [[num, den]..]}  *)
+   {id, v, ids, groups, unique, req, inClusters, flat, lookup, indexOf, w, mean: [[num, den]..]};
+   kind "model": the TemplateModel queries; kinds "call_*": single calls made by the repository's tests. *)
 EXTENDS Clusters
 VARIABLE i
 Trace == ndJsonDeserialize(TraceFile)
@@ -26,7 +27,16 @@ CheckUtils(r) ==
   /\ Clause(r.id, "IsFlatten", IsFlatten(r.flat, r.groups))
   /\ Clause(r.id, "IsIndexOf", IsIndexOf(r.indexOf, r.vneg, r.lookup))
   /\ Clause(r.id, "IsMean", MeanMatches(r.mean, r.w, r.v))
-Check1(r) == IF r.kind = "model" THEN CheckModel(r) ELSE CheckUtils(r)
+\* U: single calls recorded while the repository's own tests run (harness/pytest_tracer.py)
+CheckCall(r) ==
+  CASE r.kind = "call_unique" -> Clause(r.id, "IsUnique", IsUnique(r.out, r.v))
+    [] r.kind = "call_index_of" -> Clause(r.id, "IsIndexOf", IsIndexOf(r.out, r.arr, r.lookup))
+    [] r.kind = "call_in_clusters" -> Clause(r.id, "IsInClusters", IsInClusters(r.out, r.v, r.req))
+    [] r.kind = "call_per_cluster" -> Clause(r.id, "IsGroups", IsGroups(r.groups, r.v, r.ids))
+    [] r.kind = "call_flatten" -> Clause(r.id, "IsFlatten", IsFlatten(r.out, r.groups))
+    [] OTHER -> Clause(r.id, "kind", FALSE)
+Check1(r) == IF r.kind = "model" THEN CheckModel(r)
+             ELSE IF r.kind = "utils" THEN CheckUtils(r) ELSE CheckCall(r)
 TNext == /\ i <= Len(Trace) /\ Check1(Trace[i]) /\ TLCSet(2, i) /\ i' = i + 1 /\ UNCHANGED vars
 TSpec == TInit /\ [][TNext]_<<vars, i>>
 Accepted == Verdict(TLCGet(2)) /\ TLCGet(2) = Len(Trace)
